@@ -91,7 +91,8 @@ impl<'a> Visitor for PassBuilder<'a> {
         }
         let r = catch_unwind(AssertUnwindSafe(|| {
             let mut b = NativeRecordDefinitionBuilder::new(self.table);
-            b.add_datum::<u8, _>("pad").ok();
+            // a first datum of the same type (any other type might not be in a sampled table)
+            b.add_datum::<T, _>("pad").unwrap();
             let d = b.add_datum::<T, _>("target").unwrap();
             b.close_record_variant();
             let def = b.build();
